@@ -58,6 +58,7 @@ pub enum Ev {
     Terminate,
     CloseCmd,
     CloseReports,
+    ReplayMismatch,
 }
 
 struct Slot {
@@ -223,6 +224,7 @@ pub struct Sched {
     pub close_cmd_at: Option<usize>,
     pub close_rep_at: Option<usize>,
     pub watchdog_ms: u64,
+    pub terminate_alone: bool,
 }
 
 pub const SPECS: &[&str] = &[
@@ -279,8 +281,25 @@ impl ValGen {
     }
 }
 
+#[derive(Clone, Debug)]
+pub enum Action {
+    Complete(u64, RawOut),
+    Terminate,
+    CloseCmd,
+    CloseRep,
+}
+
 pub fn run_schedule(s: &Sched) -> Obs {
+    run_schedule_ex(s, None).0
+}
+
+/// `replay`: perform exactly these actions (per round) instead of generating them; with `merge`
+/// consecutive completion-only rounds are delivered before one poll when the evaluations are
+/// already in flight (same completion order, different spacing).
+pub fn run_schedule_ex(s: &Sched, replay: Option<(&[Vec<Action>], bool)>) -> (Obs, Vec<Vec<Action>>) {
     let t0 = Instant::now();
+    let mut recorded: Vec<Vec<Action>> = Vec::new();
+    let mut replay_pos = 0usize;
     let spec = spec_util::from_yaml_str(SPECS[s.spec]).expect("harness spec must parse");
     let guess_json: Option<serde_json::Value> =
         s.guess.as_ref().map(|g| serde_json::from_str(g).unwrap());
@@ -371,7 +390,34 @@ pub fn run_schedule(s: &Sched) -> Obs {
 
     for round in 0..s.max_rounds {
         // --- harness actions before the poll
-        if round > 0 {
+        let mut actions: Vec<Action> = Vec::new();
+        if let Some((rounds, merge)) = replay {
+            if replay_pos >= rounds.len() {
+                break;
+            }
+            actions = rounds[replay_pos].clone();
+            replay_pos += 1;
+            if merge {
+                // pull in following completion-only rounds whose evaluations are already in flight
+                while replay_pos < rounds.len() && actions.len() < 100 {
+                    let only_completes = |r: &Vec<Action>| !r.is_empty() && r.iter().all(|a| matches!(a, Action::Complete(..)));
+                    if !only_completes(&actions) || !only_completes(&rounds[replay_pos]) {
+                        break;
+                    }
+                    let g = shared.0.lock().unwrap();
+                    let ready = rounds[replay_pos].iter().all(|a| match a {
+                        Action::Complete(sd, _) => g.slots.get(sd).map(|sl| !sl.returned && sl.outcome.is_none()).unwrap_or(false),
+                        _ => false,
+                    });
+                    drop(g);
+                    if !ready {
+                        break;
+                    }
+                    actions.extend(rounds[replay_pos].iter().cloned());
+                    replay_pos += 1;
+                }
+            }
+        } else if round > 0 {
             let live: Vec<u64> = {
                 let g = shared.0.lock().unwrap();
                 g.order
@@ -419,32 +465,61 @@ pub fn run_schedule(s: &Sched) -> Obs {
                         RawOut::Val(vg.next())
                     };
                     completions += 1;
+                    actions.push(Action::Complete(sd, out));
+                }
+            }
+        }
+        if replay.is_none() {
+            if Some(round) == s.terminate_at && cmd_tx_opt.is_some() {
+                if s.terminate_alone {
+                    actions.clear();
+                }
+                actions.push(Action::Terminate);
+            }
+            if Some(round) == s.close_cmd_at {
+                actions.push(Action::CloseCmd);
+            }
+            if Some(round) == s.close_rep_at {
+                actions.push(Action::CloseRep);
+            }
+        }
+        for a in actions.iter() {
+            match a {
+                Action::Complete(sd, out) => {
                     let w = {
                         let mut g = shared.0.lock().unwrap();
-                        let sl = g.slots.get_mut(&sd).unwrap();
-                        sl.outcome = Some(out);
-                        sl.waker.take()
+                        match g.slots.get_mut(sd) {
+                            Some(sl) if !sl.returned && sl.outcome.is_none() => {
+                                sl.outcome = Some(out.clone());
+                                sl.waker.take()
+                            }
+                            _ => {
+                                g.log.push(Ev::ReplayMismatch);
+                                None
+                            }
+                        }
                     };
                     if let Some(w) = w {
                         w.wake();
                     }
                 }
+                Action::Terminate => {
+                    if let Some(tx) = cmd_tx_opt.as_mut() {
+                        shared.0.lock().unwrap().log.push(Ev::Terminate);
+                        let _ = tx.try_send(Command::Terminate);
+                    }
+                }
+                Action::CloseCmd => {
+                    shared.0.lock().unwrap().log.push(Ev::CloseCmd);
+                    cmd_tx_opt = None;
+                }
+                Action::CloseRep => {
+                    shared.0.lock().unwrap().log.push(Ev::CloseReports);
+                    rep_rx = None;
+                }
             }
         }
-        if Some(round) == s.terminate_at {
-            if let Some(tx) = cmd_tx_opt.as_mut() {
-                shared.0.lock().unwrap().log.push(Ev::Terminate);
-                let _ = tx.try_send(Command::Terminate);
-            }
-        }
-        if Some(round) == s.close_cmd_at {
-            shared.0.lock().unwrap().log.push(Ev::CloseCmd);
-            cmd_tx_opt = None;
-        }
-        if Some(round) == s.close_rep_at {
-            shared.0.lock().unwrap().log.push(Ev::CloseReports);
-            rep_rx = None;
-        }
+        recorded.push(actions);
 
         // --- the poll
         shared.0.lock().unwrap().log.push(Ev::Poll);
@@ -556,14 +631,17 @@ pub fn run_schedule(s: &Sched) -> Obs {
             }
         }
     }
-    Obs {
-        sched: s.clone(),
-        init_val,
-        events: g.log.clone(),
-        strings: g.strings.clone(),
-        n_reeval,
-        wall_ms: t0.elapsed().as_millis(),
-    }
+    (
+        Obs {
+            sched: s.clone(),
+            init_val,
+            events: g.log.clone(),
+            strings: g.strings.clone(),
+            n_reeval,
+            wall_ms: t0.elapsed().as_millis(),
+        },
+        recorded,
+    )
 }
 
 // ---------------------------------------------------------------------------------------------
@@ -633,9 +711,12 @@ pub fn gen_sched(master: u64, idx: u64, profile: &str) -> Sched {
     } else {
         None
     };
-    let honour_num = *r.pick(&[8, 8, 8, 4, 0]);
-    let close_cmd_at = if r.chance(1, 30) { Some(r.below(est.max(1) + 2)) } else { None };
-    let close_rep_at = if r.chance(1, 30) { Some(r.below(est.max(1) + 2)) } else { None };
+    let twin = profile == "twin";
+    // twins: every completion is decided by the harness (no evaluation ends by itself on the abort),
+    // and no channel is closed (launch's own select order is random there)
+    let honour_num = if twin { 0 } else { *r.pick(&[8, 8, 8, 4, 0]) };
+    let close_cmd_at = if !twin && r.chance(1, 30) { Some(r.below(est.max(1) + 2)) } else { None };
+    let close_rep_at = if !twin && r.chance(1, 30) { Some(r.below(est.max(1) + 2)) } else { None };
     let spec = r.below(SPECS.len());
     let guess = if spec == 0 && r.chance(1, 3) { Some("{\"x\": -2.5}".to_string()) } else { None };
     Sched {
@@ -661,6 +742,7 @@ pub fn gen_sched(master: u64, idx: u64, profile: &str) -> Sched {
         close_cmd_at,
         close_rep_at,
         watchdog_ms: 1500,
+        terminate_alone: profile == "twin",
     }
 }
 
@@ -721,6 +803,7 @@ pub fn ev_to_coq(e: &Ev) -> String {
         Ev::Terminate => "ETerminate".into(),
         Ev::CloseCmd => "ECloseCmd".into(),
         Ev::CloseReports => "ECloseReports".into(),
+        Ev::ReplayMismatch => "EReplayMismatch".into(),
     }
 }
 
